@@ -206,14 +206,14 @@ func runConfigHistory(c *Case) (obs HistoryObs) {
 		}
 		cfgParams, _ := configs.ParseConfigMap(ctx, cm, c.Plus, false, false, true, &record.FakeRecorder{})
 		cnf.CfgParams = cfgParams
-		mgr.files, mgr.changed = map[string][]byte{}, false
+		mgr.changed = false
 		store := allResources(c)
 		snaps := snapshot(store)
 		if _, err := cnf.UpdateConfig(store); err != nil {
 			return nil, err
 		}
 		obs.Mutated = addMutations(obs.Mutated, snaps)
-		return mgr.files, nil
+		return mgr.disk(), nil
 	}
 	dir1 := filepath.Join(workDir, fmt.Sprintf("c09tmp-%d-%d-c1", os.Getpid(), c.ID))
 	dir2 := filepath.Join(workDir, fmt.Sprintf("c09tmp-%d-%d-c2", os.Getpid(), c.ID))
@@ -274,6 +274,170 @@ func runConfigHistory(c *Case) (obs HistoryObs) {
 		for _, n := range names {
 			if string(ff[n]) != string(other[n]) {
 				obs.Diff = firstDiff(len(seq.steps), n, ff[n], other[n])
+				break
+			}
+		}
+	}
+	return
+}
+
+// ---------------------------------------------------------------- batch versus single
+//
+// The same resource must be rendered to the same bytes whether it is generated alone or as one of a
+// batch, through whichever entry point of the Configurator.
+
+var batchEntries = []string{"AddOrUpdateResources", "AddOrUpdateResources-reversed", "UpdateConfig", "AddOrUpdateVirtualServers",
+	"UpdateVirtualServers", "UpdateEndpointsForVirtualServers", "AddOrUpdateAppProtectResource"}
+
+func batchResources(c *Case) configs.ExtendedResources {
+	var res configs.ExtendedResources
+	r := vh.NewRng(c.Seed)
+	n := c.P["nvs"]
+	if n < 2 {
+		n = 2
+	}
+	for i := 0; i < n; i++ {
+		p := map[string]int{}
+		for k, v := range c.P {
+			p[k] = v
+		}
+		p["idx"] = i + 1
+		switch i % 3 {
+		case 0:
+			p["oidc"] = b2i(c.Plus) // the first VirtualServer carries the OIDC policy
+			p["akp"], p["keys"] = 1, 2
+		case 1:
+			p["claims"], p["tiers"], p["mix"] = 2, 2, 1
+		case 2:
+			p["akp"], p["keys"], p["vsr"] = 2, 3, 1
+		}
+		res.VirtualServerExes = append(res.VirtualServerExes, buildVS(r.Fork(uint64(i)), p))
+	}
+	res.IngressExes = []*configs.IngressEx{buildIngress(r.Fork(100), c.P, "shop-ingress", "shop.example.com", c.P["ann"], "")}
+	res.TransportServerExes = []*configs.TransportServerEx{buildTS(r.Fork(200), c.P, 0, false)}
+	return res
+}
+
+func runBatch(c *Case) (obs HistoryObs) {
+	defer func() {
+		if e := recover(); e != nil {
+			obs.Panic = fmt.Sprint(e)
+		}
+	}()
+	entry := batchEntries[c.P["entry"]%len(batchEntries)]
+	obs.Scenario = "batch:" + entry
+	seq := 0
+	fresh := func() (*configs.Configurator, *recMgr, func(), error) {
+		seq++
+		dir := filepath.Join(workDir, fmt.Sprintf("c09tmp-%d-%d-b%d", os.Getpid(), c.ID, seq))
+		cnf, mgr, err := newConfigurator(dir, c.Plus)
+		return cnf, mgr, func() { os.RemoveAll(dir) }, err
+	}
+	// every resource alone, each in its own fresh Configurator
+	single := map[string][]byte{}
+	all := batchResources(c)
+	var ones []configs.ExtendedResources
+	for _, ex := range all.VirtualServerExes {
+		ones = append(ones, configs.ExtendedResources{VirtualServerExes: []*configs.VirtualServerEx{ex}})
+	}
+	for _, ex := range all.IngressExes {
+		ones = append(ones, configs.ExtendedResources{IngressExes: []*configs.IngressEx{ex}})
+	}
+	for _, ex := range all.TransportServerExes {
+		ones = append(ones, configs.ExtendedResources{TransportServerExes: []*configs.TransportServerEx{ex}})
+	}
+	for _, one := range ones {
+		cnf, mgr, done, err := fresh()
+		if err != nil {
+			obs.Error = err.Error()
+			return
+		}
+		snaps := snapshot(one)
+		_, err = cnf.AddOrUpdateResources(one, false)
+		obs.Mutated = addMutations(obs.Mutated, snaps)
+		for n, b := range mgr.disk() {
+			single[n] = b
+		}
+		done()
+		if err != nil {
+			obs.Error = err.Error()
+			return
+		}
+	}
+	// the batch, twice through the same Configurator
+	cnf, mgr, done, err := fresh()
+	if err != nil {
+		obs.Error = err.Error()
+		return
+	}
+	defer done()
+	batch := func() (map[string][]byte, error) {
+		res := batchResources(c)
+		snaps := snapshot(res)
+		var err error
+		switch entry {
+		case "AddOrUpdateResources":
+			_, err = cnf.AddOrUpdateResources(res, false)
+		case "AddOrUpdateResources-reversed":
+			v := res.VirtualServerExes
+			for i, j := 0, len(v)-1; i < j; i, j = i+1, j-1 {
+				v[i], v[j] = v[j], v[i]
+			}
+			// the OIDC VirtualServer is now generated last, the others before it
+			_, err = cnf.AddOrUpdateResources(res, false)
+		case "UpdateConfig":
+			_, err = cnf.UpdateConfig(res)
+		case "AddOrUpdateVirtualServers":
+			_, err = cnf.AddOrUpdateVirtualServers(res.VirtualServerExes)
+		case "UpdateVirtualServers":
+			if errs := cnf.UpdateVirtualServers(res.VirtualServerExes, nil); len(errs) > 0 {
+				err = errs[0]
+			}
+		case "UpdateEndpointsForVirtualServers":
+			err = cnf.UpdateEndpointsForVirtualServers(res.VirtualServerExes)
+		case "AddOrUpdateAppProtectResource":
+			_, err = cnf.AddOrUpdateAppProtectResource(apPolicy("default", "unrelated", 1), res.IngressExes, nil, res.VirtualServerExes)
+		}
+		obs.Mutated = addMutations(obs.Mutated, snaps)
+		if err != nil {
+			return nil, err
+		}
+		// compare per file: what the batch wrote, and the single rendering for what it did not touch
+		out := map[string][]byte{}
+		for n, b := range single {
+			out[n] = b
+		}
+		for n, b := range mgr.disk() {
+			if n != "nginx.conf" {
+				out[n] = b
+			}
+		}
+		return out, nil
+	}
+	fb, err := batch()
+	if err != nil {
+		obs.Error = err.Error()
+		return
+	}
+	fb2, err := batch()
+	if err != nil {
+		obs.Error = err.Error()
+		return
+	}
+	obs.BAfterA, obs.BAgain, obs.BFresh = digests(fb), digests(fb2), digests(single)
+	obs.A = obs.BFresh
+	obs.AEqualsB = false
+	obs.BFirst = map[string]string{}
+	for n, b := range single {
+		obs.BFirst[n] = string(b)
+	}
+	for _, other := range []map[string][]byte{fb, fb2} {
+		if obs.Diff != nil {
+			break
+		}
+		for _, n := range sortedKeys(other) {
+			if string(single[n]) != string(other[n]) {
+				obs.Diff = firstDiff(0, n, single[n], other[n])
 				break
 			}
 		}
